@@ -112,6 +112,31 @@ static int one(int strict, int deliv)
 			}
 			mc_violation(sig, "expected %s got %s", sb_str(&d_exp), sb_str(&d_got));
 		}
+		/* the convenience entry points (default mode, C string) must return the same tree */
+		if (!strict && deliv == 0)
+		{
+			char *buf = mc_guard_buf(TL + 1);
+			memcpy(buf, T, TL);
+			buf[TL] = 0;
+			MC_COUNT("calls", 2);
+			enum json_tokener_error ve = (enum json_tokener_error)77;
+			struct json_object *o1 = json_tokener_parse(buf), *o2 = json_tokener_parse_verbose(buf, &ve);
+			sb_t d2 = {0};
+			vf_dump(o1, &d2, 0);
+			if (strcmp(sb_str(&d2), sb_str(&d_got)) != 0 || (!o1 && obj))
+				mc_violation("entry-points-differ", "json_tokener_parse gives %s, parse_ex gives %s", o1 ? sb_str(&d2) : "NULL", sb_str(&d_got));
+			sb_reset(&d2);
+			vf_dump(o2, &d2, 0);
+			if (strcmp(sb_str(&d2), sb_str(&d_got)) != 0 || (!o2 && obj))
+				mc_violation("entry-points-differ", "json_tokener_parse_verbose gives %s (error %d), parse_ex gives %s", o2 ? sb_str(&d2) : "NULL", (int)ve, sb_str(&d_got));
+			else if (ve != json_tokener_success)
+				mc_violation("entry-points-differ", "json_tokener_parse_verbose returned the value but stored error %d", (int)ve);
+			sb_free(&d2);
+			if (o1)
+				json_object_put(o1);
+			if (o2)
+				json_object_put(o2);
+		}
 		/* the end position is C03's business (consistency across chunkings); here only that it is within the input */
 		if (end > TL + 1)
 			mc_violation("parse-end-beyond-input", "parse end %zu, text length %zu (+ NUL)", end, TL);
